@@ -99,6 +99,7 @@ class ConsumerRec:
         self.arguments = arguments or {}
         self.prefetch = prefetch                 # 0 = unlimited
         self.unacked = 0
+        self.last_served = 0                     # for round-robin among the consumers of a queue
 
     @property
     def priority(self):
@@ -351,6 +352,8 @@ class Broker:
         if not consumer.auto_ack:
             ch.unacked[tag] = (q, msg, consumer)
             consumer.unacked += 1
+        self.serve_seq = getattr(self, "serve_seq", 0) + 1
+        consumer.last_served = self.serve_seq
         self.log("deliver", ch.owner, uid=msg.uid, queue=qname, consumer_tag=consumer.tag, delivery_tag=tag,
                  redelivered=msg.redelivered, message_id=getattr(msg.props, "message_id", None),
                  correlation_id=getattr(msg.props, "correlation_id", None), channel=ch.uid)
